@@ -60,7 +60,7 @@ structure DictSt (σ : Type) where
   mod : Bool
   slots : List (Option σ)
   removed : List Bool
-deriving Repr
+deriving Repr, DecidableEq
 
 /-- states, by recursion on the schema -/
 def St : Shape → Type
@@ -84,7 +84,7 @@ deriving Repr, DecidableEq
 structure KeyOp (δ : Type) where
   removed : Bool
   modified : Option δ
-deriving Repr
+deriving Repr, DecidableEq
 
 /-- canonical delta values (`delta_value_schema`), by recursion on the schema -/
 def Dl : Shape → Type
